@@ -30,6 +30,29 @@ theorem C17_pin_methods_versions_codes :
     (cimPrefix, dtdPrefix, protoPrefix) = ("2.", "2.", "1.") ∧
     (cimErrFailed, cimErrInvalidParameter, cimErrNotSupported) = (1, 4, 7) := by decide
 
+/-! ## the header recognisers -/
+
+/-- the fuel `len + 1` that the header checks hand to the two findall recognisers suffices: any larger
+    fuel yields the same matches (the recursion is on ever shorter suffixes of the header value) -/
+theorem C17_findall_fuel_suffices (v : Str) (k : Nat) :
+    tokensQ (v.length + 1 + k) v = tokensQ (v.length + 1) v ∧
+    tokensC (v.length + 1 + k) v = tokensC (v.length + 1) v :=
+  ⟨tokensQ_enough v k, tokensC_enough v k⟩
+
+/-- what the checks accept and reject on the DSP0200 examples and on the near misses the regular
+    expressions are known for (a q-value that does not parse becomes a token of its own; `Charset=` with a
+    capital C is not the charset parameter; a quoted charset is) -/
+theorem C17_header_check_examples :
+    acceptCharsetOk "UTF-8".toList = true ∧ acceptCharsetOk "iso-8859-1, utf-8;q=0.5".toList = true ∧
+    acceptCharsetOk "iso-8859-1;q=0.5, *;q=0.1".toList = true ∧ acceptCharsetOk "ASCII".toList = false ∧
+    acceptCharsetOk "utf8".toList = false ∧ acceptCharsetOk "x;q=7;*".toList = true ∧
+    acceptCharsetOk "foo;q=1utf-8".toList = true ∧
+    contentTypeOk "application/xml; charset=utf-8".toList = true ∧ contentTypeOk "TEXT/XML;charset=\"UTF-8\"".toList = true ∧
+    contentTypeOk "text/xml; charset=ascii".toList = false ∧ contentTypeOk "text/xml; Charset=ascii".toList = true ∧
+    contentTypeOk "foo_application/xml".toList = false ∧ contentTypeOk "text/html, text/xml".toList = true ∧
+    acceptOk "*/*".toList = true ∧ acceptOk "text/xml, application/xml".toList = false ∧
+    contentEncodingOk "Identity".toList = true ∧ contentEncodingOk "gzip".toList = false := by decide
+
 /-! ## one response, no leak -/
 
 /-- **handler_no_leak.**  For every request whose method the handler class implements, every
@@ -116,6 +139,36 @@ theorem C17_no_header_injection (E : Env) (s s' : LState) (r : Req) (rsp : Respo
   have := printableC_not_crlf hpc
   simp only [printableC, Bool.and_eq_true, decide_eq_true_eq] at hpc
   exact ⟨this.1, this.2, hpc.1, hpc.2⟩
+
+/-- **syntactically valid header section.**  Cutting the octets pywbem + http.server write before the body
+    at every CR LF gives back exactly: the status line, the Server and Date lines, one `name: value` line
+    per header pywbem sent, and the empty line that ends the header section — no additional line, no
+    earlier empty line (so a receiver finds the body, and only the intended headers, where pywbem
+    means them to be), provided the stdlib-made Server and Date values contain no CR. -/
+theorem C17_wire_header_section (E : Env) (s s' : LState) (r : Req) (rsp : Response)
+    (h : handle Cfg.fixed E s r = some (.ok (s', rsp))) (server date : Str)
+    (hsv : '\r' ∉ server) (hdt : '\r' ∉ date) :
+    splitCRLF false [] (wireHead server date rsp) = headLines server date rsp ++ [[], []] := by
+  rcases handle_fixed E s r with hn | ⟨y, hy, ho⟩
+  · rw [hn] at h; cases h
+  · rw [hy] at h; cases h
+    obtain ⟨hh, hr⟩ := outcome_printable ho
+    apply splitCRLF_join
+    intro l hl
+    simp only [headLines, List.mem_cons, List.mem_map] at hl
+    rcases hl with rfl | rfl | rfl | ⟨kv, hkv, rfl⟩
+    · have h1 := printable_no_cr (natStr_printable rsp.status)
+      have h2 := printable_no_cr hr
+      simp only [List.mem_append, List.mem_cons, not_or]
+      exact ⟨⟨by decide, h1⟩, by decide, h2⟩
+    · simp only [headerLine, List.mem_append, List.mem_cons, not_or]
+      exact ⟨by decide, by decide, by decide, hsv⟩
+    · simp only [headerLine, List.mem_append, List.mem_cons, not_or]
+      exact ⟨by decide, by decide, by decide, hdt⟩
+    · simp only [hdrsPrintable, List.all_eq_true, Bool.and_eq_true] at hh
+      have := hh kv hkv
+      simp only [headerLine, List.mem_append, List.mem_cons, not_or]
+      exact ⟨printable_no_cr this.1, by decide, by decide, printable_no_cr this.2⟩
 
 /-- an HTTP-level error (4xx/5xx) has an empty body, no Content-Length, the CIMExport header; 400 and 406
     carry a CIMError header, 405 carries `Allow: POST`; 4xx/5xx from do_POST always carry CIMErrorDetails -/
@@ -392,6 +445,12 @@ theorem C17_original_header_injection_from_request :
   decide
 example : hasRawLF (handle Cfg.fixed (demoEnv (some (demoTree "3\nX-Injected: 1" [])) [] (.ok ())) s0 (demoReq "2")) = false := by
   decide
+
+/-- … and on the wire the header section of that answer then has a line pywbem never meant to send -/
+theorem C17_original_header_section_split :
+    (match handle Cfg.original (demoEnv (some (demoTree "3\r\nX-Injected: 1" [])) [] (.ok ())) s0 (demoReq "2") with
+     | some (.ok (_, rsp)) => (splitCRLF false [] (wireHead [] [] rsp)).length == (headLines [] [] rsp).length + 3
+     | _ => false) = true := by decide
 
 /-- text outside Latin-1 in the details: UnicodeEncodeError in send_header, connection dropped -/
 theorem C17_original_drops_on_non_latin1_details :
